@@ -80,6 +80,105 @@ func c20FirstStartCrash(c *Ctx) {
 	}
 }
 
+// c20RestructureCrash: the accessory ran as a switch; the application is changed to a lightbulb (another structure) and the
+// start that notices the change is killed at every file-system call it makes; then the lightbulb application starts
+// normally, twice. The configuration number must then be greater than the one announced for the switch — controllers that
+// cached the switch's database must refetch — and stay the same on the second start. Compared with Hc.CfgCrash
+// (`config cfgcrash`), where the number of completed configuration writes is read off the disk after the kill.
+func c20RestructureCrash(c *Ctx) {
+	id0 := "restructure-crash"
+	if c.Skip(id0) {
+		return
+	}
+	probe := c19Probe(c)
+	root := c.ScratchDir()
+	n := 0
+	prepared := func() (string, string, string) {
+		n++
+		d := filepath.Join(root, fmt.Sprintf("rs%d", n), "store")
+		os.MkdirAll(filepath.Dir(d), 0755)
+		sw := accessory.NewSwitch(accessory.Info{Name: "Crash Acc"})
+		if _, err := hc.NewIPTransport(hc.Config{StoragePath: d, Pin: "00102003"}, sw.Accessory); err != nil {
+			fatal("start: %v", err)
+		}
+		v, _ := os.ReadFile(filepath.Join(d, "version"))
+		h, _ := os.ReadFile(filepath.Join(d, "configHash"))
+		return d, string(v), string(h)
+	}
+	argv := func(d string) []string { return []string{probe, "start", d, "00102003", "Crash Acc", "lightbulb"} }
+	d0, _, _ := prepared()
+	calls, _, runErr, err := fstrace.Record(root, d0, argv(d0), "")
+	if err != nil {
+		fatal("strace: %v", err)
+	}
+	if runErr != nil {
+		c.Violate("a start with a changed accessory structure fails", id0, nil, "exit 0", runErr.Error())
+		return
+	}
+	newHash, _ := os.ReadFile(filepath.Join(d0, "configHash"))
+	os.RemoveAll(filepath.Dir(d0))
+	restart := func(d string) (string, error) {
+		lb := accessory.NewLightbulb(accessory.Info{Name: "Crash Acc"})
+		t, err := hc.NewIPTransport(hc.Config{StoragePath: d, Pin: "00102003"}, lb.Accessory)
+		if err != nil {
+			return "", err
+		}
+		return hc.VerifTxtRecords(t)["c#"], nil
+	}
+	for j, call := range calls {
+		id := fmt.Sprintf("restructure-crash#%d", j)
+		if c.Skip(id) {
+			continue
+		}
+		d, v0, h0 := prepared()
+		_, _, kerr, err := fstrace.Record(root, d, argv(d), fmt.Sprintf("%s:signal=SIGKILL:when=%d", call.Name, call.Nth))
+		if err != nil {
+			fatal("strace: %v", err)
+		}
+		in := map[string]interface{}{"version_announced_for_the_old_structure": v0, "start_with_new_structure_killed_on_entering": call.Descr, "system_call_index": j, "system_calls_of_that_start": callDescr(calls)}
+		if kerr == nil {
+			c.Mismatch("kill-injection", id, in, "process killed at "+call.Descr, "process ran to completion")
+			continue
+		}
+		vk, _ := os.ReadFile(filepath.Join(d, "version"))
+		hk, _ := os.ReadFile(filepath.Join(d, "configHash"))
+		k := 0
+		if string(vk) != v0 {
+			k++
+		}
+		if string(hk) != h0 {
+			k++
+		}
+		hashFirstOnDisk := string(hk) != h0 && string(vk) == v0
+		c1, err := restart(d)
+		if err != nil {
+			c.Violate("the start after a killed start fails", id, in, "started", err.Error())
+			continue
+		}
+		c2, _ := restart(d)
+		var a, b int
+		fmt.Sscan(v0, &a)
+		fmt.Sscan(c1, &b)
+		if b <= a || c2 != c1 {
+			c.Violate("the configuration number does not increase although the structure of the accessory database changed (the start that noticed the change was killed)", id, in,
+				fmt.Sprintf("c# > %s on the next start and the same on the one after", v0), fmt.Sprintf("c#=%s then c#=%s (after the kill: version file %q, hash file changed: %v)", c1, c2, vk, string(hk) != h0))
+		}
+		if !hashFirstOnDisk {
+			model := c.Model1(fmt.Sprintf("config cfgcrash 0 %d 1 2 %d", a, k))
+			hs := 1
+			if hNow, _ := os.ReadFile(filepath.Join(d, "configHash")); string(hNow) == string(newHash) {
+				hs = 2
+			}
+			vNow, _ := os.ReadFile(filepath.Join(d, "version"))
+			c.Same("restructure-crash", id, in, model, fmt.Sprintf("version=%s hash=%d", vNow, hs))
+		} else {
+			c.Mismatch("restructure-crash", id, in, "the version reaches the disk before the hash (Generated/CfgSave.lean)", "after the kill the hash is new and the version old")
+		}
+		c.Count(id, true, "stream:restructure-crash", fmt.Sprintf("restructure-crash:writes-done=%d", k))
+		os.RemoveAll(filepath.Dir(d))
+	}
+}
+
 // c20HashPrecision: structures that differ only in an integer above 2^53 (an explicit accessory id) are different
 // structures: the configuration hash must differ. And the hash does not depend on values, nor change between two
 // computations.
